@@ -755,3 +755,85 @@ def kinds(hist, norm_end=True):
     ks = [op[0] for op in hist]
     if norm_end: ks = ['commit' if k == 'end' else k for k in ks]
     return '>'.join(ks)
+
+# ---- extra read operations used by the C11/C12 monitors ------------------------------------------
+def _op_r_identity(self, label):
+    """every way of obtaining the object with this primary key inside the session yields the very
+    same Python object: returns the list of routes that produced a different object"""
+    import pickle
+    from pony.orm import core as pcore
+    obj = self.resolve(label)
+    e = self.env.E[label.split(':')[0]]
+    pk = obj.get_pk()
+    if pk is None: raise Skip(label)
+    pkd = {a.name: v for a, v in zip(e._pk_attrs_, pk if isinstance(pk, tuple) else (pk,))}
+    routes = {}
+    routes['Entity[pk]'] = e[pk]
+    routes['get'] = e.get(**pkd)
+    routes['select(**kw)'] = list(e.select(**pkd))
+    cond = ' and '.join('x.%s == v%d' % (k, i) for i, k in enumerate(pkd))
+    routes['select(gen)'] = list(self.orm.select('x for x in E if ' + cond, {'E': e}, dict(('v%d' % i, v) for i, v in enumerate(pkd.values()))))
+    t = e._table_ if isinstance(e._table_, str) else e._table_[-1]
+    routes['select_by_sql'] = [o for o in e.select_by_sql('select * from "%s"' % t) if o.get_pk() == pk]
+    routes['pickle'] = pickle.loads(pickle.dumps(obj))
+    routes['proxy'] = pcore.make_proxy(obj)._get_object()
+    # navigation from every neighbour
+    for a in type(obj)._attrs_:
+        if not a.reverse: continue
+        v = getattr(obj, a.name)
+        neigh = list(v) if a.is_collection else ([v] if v is not None else [])
+        for nb in neigh:
+            back = getattr(nb, a.reverse.name)
+            back = list(back) if a.reverse.is_collection else [back]
+            routes['nav:%s.%s' % (a.name, a.reverse.name)] = [o for o in back if o is not None and o.get_pk() == pk and type(o)._root_ is type(obj)._root_]
+    bad = []
+    for r, got in sorted(routes.items()):
+        gl = got if isinstance(got, list) else [got]
+        if len(gl) != 1 or gl[0] is not obj: bad.append(r)
+    return bad
+Exec.op_r_identity = _op_r_identity
+
+def _op_r_indexes(self):
+    """cache.indexes is consistent with the objects' current values (reads internals; a rename
+    breaks this loudly, never silently)"""
+    from pony.orm import core as pcore
+    cache = pcore.local.db2cache.get(self.env.db)
+    if cache is None or not cache.is_alive: return []
+    dead = ('deleted', 'cancelled', 'marked_to_delete')
+    bad = []
+    for key, index in cache.indexes.items():
+        attrs = key if isinstance(key, tuple) else (key,)
+        is_pk = attrs == attrs[0].entity._pk_attrs_
+        for k, o in index.items():
+            if o._status_ in dead and not (o._status_ == 'marked_to_delete' and is_pk):
+                bad.append('dead-object-in-index:%s' % ','.join(a.name for a in attrs)); continue
+            if o._status_ in dead: continue
+            vals = tuple(o._vals_.get(a, pcore.NOT_LOADED) for a in attrs)
+            held = vals[0] if len(vals) == 1 and not (is_pk and o._pk_is_composite_) else vals
+            if is_pk: held = o._pkval_
+            if held != k: bad.append('stale-key-in-index:%s' % ','.join(a.name for a in attrs))
+    for o in cache.objects:
+        if o._status_ in dead: continue
+        e = type(o)
+        keys = [e._pk_attrs_] + [(a,) for a in e._simple_keys_] + list(e._composite_keys_)
+        for attrs in keys:
+            is_pk = attrs == e._pk_attrs_
+            if is_pk:
+                if o._pkval_ is None: continue
+                k = o._pkval_
+            else:
+                vals = tuple(o._vals_.get(a, pcore.NOT_LOADED) for a in attrs)
+                if any(v is None or v is pcore.NOT_LOADED for v in vals): continue
+                k = vals[0] if len(vals) == 1 else vals
+            idx = cache.indexes.get(attrs if (len(attrs) > 1 or is_pk) else attrs[0])
+            if idx is None and len(attrs) == 1: idx = cache.indexes.get(attrs)
+            if idx is None or idx.get(k) is not o:
+                bad.append('object-not-indexed:%s' % ','.join(a.name for a in attrs))
+    return sorted(set(bad))
+Exec.op_r_indexes = _op_r_indexes
+
+def latent_conflict(fixture, hist):
+    """the history creates an object under a primary key that already exists in the database but is
+    not loaded: a latent key conflict that Pony can only report at flush (C14). Labels then denote
+    two different things, so view-based monitors skip such states."""
+    return fixture == 'populated' and any(op[0] == 'create' and op[2] in (1, 2) for op in hist)
